@@ -46,6 +46,15 @@ impl<'a> Src<'a> {
         }
     }
 
+    /// bytes mode: no input left (decoders end open-ended loops here instead of
+    /// padding the case with zero decisions); path mode: never
+    pub fn exhausted(&self) -> bool {
+        match &self.mode {
+            Mode::Bytes { data, pos } => *pos >= data.len(),
+            Mode::Path { .. } => false,
+        }
+    }
+
     pub fn is_path(&self) -> bool {
         matches!(self.mode, Mode::Path { .. })
     }
